@@ -657,6 +657,22 @@ func TestCheck(t *testing.T) {
 		kBytes.Check(rt, BytesCase{Input: hex.EncodeToString(in)}, nt, cl...)
 	})
 
+	// a LIST with a child string on the 4-byte-length boundary (2^24) followed by a sibling; also nested once
+	t.Run("list-with-2^24-child", func(t *testing.T) {
+		if rec.Shard != 0 {
+			return
+		}
+		for _, l := range []int{1<<24 - 1, 1 << 24, 1<<24 + 1} {
+			big := Node{Fill: &Fill{Len: l, Seed: uint32(l)}}
+			for _, tree := range []Node{
+				{IsList: true, Items: []Node{big, {Hex: "6162"}}},
+				{IsList: true, Items: []Node{{Hex: "01"}, {IsList: true, Items: []Node{big}}, {Hex: "7f"}}},
+			} {
+				kTree.Must(t, TreeCase{Tree: tree, Suffix: "c0"}, true, "tree:list-with-child>=2^24B")
+			}
+		}
+	})
+
 	// decoder inputs up to 1 MiB: mutants of encodings whose strings are tens to hundreds of KiB long
 	rec.Rapid(t, "mutants-large", rec.N(40, 600), func(rt *rapid.T) {
 		n := rapid.IntRange(1, 3).Draw(rt, "strings")
